@@ -48,7 +48,8 @@ Verdict(d) ==
       lalr_ok |-> (lalr => \A qt \in conf :
                       Cardinality({a \in TCell(T, qt[1], qt[2]) : a.k # "r" \/ a.n = RhsLen(T, a.p)}) <= 1),
       wf |-> WFDefects(T, C),
-      absdiff |-> IF "abs" \in DOMAIN d.meta THEN AbsDiff(T, d.meta.abs) ELSE {},
+      absdiff |-> IF ~ConsistentG(T) THEN {<<"built_grammar_is_inconsistent">>}
+                  ELSE IF "abs" \in DOMAIN d.meta THEN AbsDiff(T, d.meta.abs) ELSE {},
       epsloop |-> Cardinality(EpsLoops(T)),
       \* binding of the OPERATIONAL construction model: Automaton.Build (FIFO work list,
       \* merge test, propagation) must reproduce the dumped automaton state by state
